@@ -359,7 +359,6 @@ POSITIONAL_ASSUMED = {
     ("sqllineage.core.parser.sqlfluff.utils", "extract_as_and_target_segment"): "applied to list_child_segments(...) (negligible children already removed)",
     ("sqllineage.core.parser.sqlfluff.utils", "extract_identifier"): "applied to list_child_segments(...)",
     ("sqllineage.core.parser.sqlfluff.utils", "extract_column_qualifier"): "applied to list_child_segments(...)",
-    ("sqllineage.core.parser.sqlfluff.models", "SqlFluffTable.of"): "G7: an object reference has no negligible children between its dotted parts (all probed dialects except tsql, see D17)",
     ("sqllineage.core.parser.sqlfluff.extractors.base", "BaseExtractor._add_dataset_from_expression_element"): "applied to list_child_segments(...) filtered lists",
 }
 
